@@ -30,6 +30,16 @@ class Check(PropertyCheck):
         out = ["+--+\n|ab|\n+--+", ".--.\n|  |\n'--'", " .-.\n(   )\n `-'", "\\\n \\\n  \\", "*-->", "/\n", "a一b -"]
         out += [gen.random_diagram(self.rng, 22, 8).split("# Legend:")[0] for _ in range(n)]
         out += gen.bundled_blocks()[: max(10, n // 10)]
+        # a hard tab is one blank column wherever it stands
+        out += ["\t+--+\n\t|  |\n\t+--+", "+--+\t+--+\n|  |\t|  |\n+--+\t+--+", "a\tb -\t-"]
+        for _ in range(max(3, n // 15)):
+            t = gen.random_diagram(self.rng, 18, 5).split("# Legend:")[0]
+            cs = list(t)
+            for _j in range(self.rng.range(1, 3)):
+                pos = [i for i, c in enumerate(cs) if c == " "]
+                if pos:
+                    cs[self.rng.choice(pos)] = "\t"
+            out.append("".join(cs))
         return [t for t in out if "# Legend:" not in t]
 
     def offsets(self):
